@@ -16,6 +16,9 @@ Pattern8(k) ==
     [] k = 5 -> <<195, 191, 97>>
     [] k = 6 -> <<194, 128>>
     [] k = 7 -> <<215, 144, 32>>                \* U+05D0 (right-to-left) and a space
+    \* character widths 1 1 2 1 3 1 4 2 2 3 2 4 3 3 4 4: cyclically every ordered pair of widths is adjacent once
+    [] k = 8 -> <<97, 97, 195, 169, 97, 226, 130, 172, 97, 240, 159, 146, 169, 195, 169, 195, 169, 226, 130, 172, 195, 169,
+                  240, 159, 146, 169, 226, 130, 172, 226, 130, 172, 240, 159, 146, 169, 240, 159, 146, 169>>
     [] OTHER -> <<65>>
 Pattern16(k) ==
   CASE k = 1 -> <<97>>
@@ -25,6 +28,7 @@ Pattern16(k) ==
     [] k = 5 -> <<255, 97>>
     [] k = 6 -> <<128>>
     [] k = 7 -> <<1488, 32>>
+    [] k = 8 -> <<97, 97, 233, 97, 8364, 97, 55357, 56489, 233, 233, 8364, 233, 55357, 56489, 8364, 8364, 55357, 56489, 55357, 56489>>
     [] OTHER -> <<65>>
 
 Expand(r) ==
